@@ -1,6 +1,6 @@
 (* Proofs/C12.v — lemmas about the model of the time helpers (Model/C12.v) *)
 From Coq Require Import String.
-Require Import OV.Base.Bytes OV.Base.Py.
+Require Import OV.Base.Bytes OV.Base.Py OV.Base.PyFloat.
 Require Import OV.Model.C12_Calendar OV.Model.C12_Prim OV.Model.C12 OV.Proofs.C12_Calendar.
 Open Scope Z_scope.
 
@@ -151,20 +151,42 @@ Proof.
   destruct (in_range (wall t + delta)); reflexivity.
 Qed.
 
-Theorem advance_seconds_is_delta s w : advance_time_seconds s w = advance_time_delta s w.
-Proof. unfold advance_time_seconds, td_of_days_seconds. f_equal. Qed.
+(* advance_time_seconds(x) = advance_time_delta(timedelta(0, x)); a conversion error leaves the slot alone *)
+Theorem advance_seconds_is_delta x u w : td_of_days_seconds 0 x = Ok u -> advance_time_seconds x w = advance_time_delta u w.
+Proof. intros H. unfold advance_time_seconds, bindM, lift. rewrite H. reflexivity. Qed.
+Theorem advance_seconds_error x e w : td_of_days_seconds 0 x = Exn e -> advance_time_seconds x w = (Exn e, w).
+Proof. intros H. unfold advance_time_seconds, bindM, lift. rewrite H. reflexivity. Qed.
 
-(* any sequence of advances (each by a timedelta or by seconds, both in microseconds) *)
-Inductive adv := ByDelta (us : Z) | BySeconds (us : Z).
-Definition adv_us (a : adv) : Z := match a with ByDelta u => u | BySeconds u => u end.
+(* any sequence of advances: by a timedelta (microseconds) or by a Python number of seconds, through the module
+   functions or through the TimeFixture methods *)
+Inductive adv := ByDelta (us : Z) | BySeconds (x : pynum) | FxByDelta (us : Z) | FxBySeconds (x : pynum).
+Definition adv_us (a : adv) : res Z :=
+  match a with ByDelta u | FxByDelta u => Ok u | BySeconds x | FxBySeconds x => td_of_days_seconds 0 x end.
 Definition run_adv (a : adv) : M unit :=
-  match a with ByDelta u => advance_time_delta u | BySeconds u => advance_time_seconds u end.
+  match a with
+  | ByDelta u => advance_time_delta u | BySeconds x => advance_time_seconds x
+  | FxByDelta u => fixture_advance_time_delta u | FxBySeconds x => fixture_advance_time_seconds x
+  end.
 Fixpoint run_advs (l : list adv) : M unit :=
   match l with [] => ret tt | a :: r => bindM (run_adv a) (fun _ => run_advs r) end.
-Definition sum_us (l : list adv) : Z := fold_right (fun a s => adv_us a + s) 0 l.
-(* every intermediate instant is representable *)
+Definition adv_us0 (a : adv) : Z := match adv_us a with Ok u => u | Exn _ => 0 end.
+Definition sum_us (l : list adv) : Z := fold_right (fun a s => adv_us0 a + s) 0 l.
+(* every amount converts and every intermediate instant is representable *)
 Fixpoint prefixes_ok (t : Z) (l : list adv) : bool :=
-  match l with [] => true | a :: r => in_range (t + adv_us a) && prefixes_ok (t + adv_us a) r end.
+  match l with
+  | [] => true
+  | a :: r => match adv_us a with
+              | Ok u => in_range (t + u) && prefixes_ok (t + u) r
+              | Exn _ => false
+              end
+  end.
+
+Lemma run_adv_us a u w : adv_us a = Ok u -> run_adv a w = advance_time_delta u w.
+Proof.
+  destruct a as [d|x|d|x]; cbn [adv_us run_adv]; intros H;
+    unfold fixture_advance_time_delta, fixture_advance_time_seconds;
+    try (injection H as ->; reflexivity); apply advance_seconds_is_delta; exact H.
+Qed.
 
 Theorem advance_exact l : forall w t, ov w = One t -> prefixes_ok (wall t) l = true ->
   run_advs l w = (Ok tt, set_ov w (One (mkDt (wall t + sum_us l) (tz t)))).
@@ -172,15 +194,13 @@ Proof.
   induction l as [|a r IH]; intros w t Hov Hp.
   - cbn. replace (wall t + 0) with (wall t) by lia. unfold ret. f_equal.
     destruct w as [o rl p z]. cbn in *. subst. destruct t; reflexivity.
-  - cbn [prefixes_ok] in Hp. apply andb_prop in Hp. destruct Hp as [H1 H2].
+  - cbn [prefixes_ok] in Hp. destruct (adv_us a) as [u|e] eqn:Eu; [|discriminate].
+    apply andb_prop in Hp. destruct Hp as [H1 H2].
     cbn [run_advs]. unfold bindM.
-    assert (E : run_adv a w = (Ok tt, set_ov w (One (mkDt (wall t + adv_us a) (tz t))))).
-    { destruct a as [u|u]; cbn [run_adv adv_us] in *; rewrite ?advance_seconds_is_delta;
-        rewrite (advance_one w t u Hov), H1; reflexivity. }
-    rewrite E.
-    rewrite (IH (set_ov w (One (mkDt (wall t + adv_us a) (tz t)))) (mkDt (wall t + adv_us a) (tz t)) eq_refl H2).
+    rewrite (run_adv_us a u w Eu), (advance_one w t u Hov), H1.
+    rewrite (IH (set_ov w (One (mkDt (wall t + u) (tz t)))) (mkDt (wall t + u) (tz t)) eq_refl H2).
     cbn [wall tz sum_us fold_right]. f_equal. unfold set_ov. cbn [ov real lib_parse lib_zone].
-    f_equal. f_equal. f_equal. fold (sum_us r). lia.
+    f_equal. f_equal. f_equal. fold (sum_us r). unfold adv_us0. rewrite Eu. lia.
 Qed.
 
 (* and utcnow afterwards returns exactly the moved instant *)
@@ -193,6 +213,34 @@ Proof. intros H P. unfold bindM. rewrite (advance_exact l w t H P). reflexivity.
 Theorem advance_overflow w t delta : ov w = One t -> in_range (wall t + delta) = false ->
   advance_time_delta delta w = (Exn OverflowError, w).
 Proof. intros H R. rewrite (advance_one w t delta H), R. reflexivity. Qed.
+
+(* ---- list overrides: utcnow pops from the front, in order; advance_time_* changes NOTHING (the loop rebinds a
+        local), it only raises OverflowError when some element + delta is not representable ---- *)
+Fixpoint utcnow_n (n : nat) : M (list dt) :=
+  match n with O => ret [] | S k => bindM (utcnow false) (fun d => bindM (utcnow_n k) (fun r => ret (d :: r))) end.
+
+Theorem utcnow_pops_in_order : forall n l w, ov w = Many l -> (n <= length l)%nat ->
+  utcnow_n n w = (Ok (firstn n l), set_ov w (Many (skipn n l))).
+Proof.
+  induction n as [|k IH]; intros l w Hov Hn.
+  - cbn. unfold ret. f_equal. destruct w; cbn in *; subst; reflexivity.
+  - destruct l as [|d r]; [cbn in Hn; lia|].
+    cbn [utcnow_n]. unfold bindM at 1. unfold utcnow at 1. rewrite Hov.
+    unfold bindM. rewrite (IH r (set_ov w (Many r)) eq_refl ltac:(cbn in Hn; lia)).
+    cbn [firstn skipn]. unfold ret, set_ov. reflexivity.
+Qed.
+
+(* an exhausted list (or none) falls through to the OS clock *)
+Theorem utcnow_list_exhausted w b : ov w = Many [] -> utcnow b w = real_now b w.
+Proof. intros H. unfold utcnow. rewrite H. reflexivity. Qed.
+
+Theorem advance_list_noop w l delta : ov w = Many l ->
+  advance_time_delta delta w =
+    (if forallb (fun t => in_range (wall t + delta)) l then Ok tt else Exn OverflowError, w).
+Proof.
+  intros H. unfold advance_time_delta. rewrite H.
+  destruct (forallb (fun t => in_range (wall t + delta)) l); reflexivity.
+Qed.
 
 (* ------------------------------------------------------------------ utcnow_ts *)
 
@@ -229,43 +277,56 @@ Proof.
 Qed.
 
 Section Compare.
-  Variables (w : world) (now : dt) (t : targ) (d : dt) (s : Z).
+  Variables (w : world) (now : dt) (t : targ) (d : dt) (s : pynum) (su : Z).
   Hypothesis Hov : ov w = One now.
   Hypothesis Hnaive : tz now = None.                  (* the clock is naive UTC *)
   Hypothesis Hres : resolves w t d.
   Hypothesis Hnorm : normalizable d = true.
+  Hypothesis Hs : td_of_seconds s = Ok su.            (* timedelta(seconds=s) is su microseconds *)
 
-  Theorem older_iff : exists b, is_older_than t s w = (Ok b, w) /\ (b = true <-> wall now - instant d > s).
+  Theorem older_iff : exists b, is_older_than t s w = (Ok b, w) /\ (b = true <-> wall now - instant d > su).
   Proof.
     destruct (normalize_result d Hnorm) as (n & En & Tn & Wn).
-    exists (wall now - instant d >? s). split; [|lia].
+    exists (wall now - instant d >? su). split; [|lia].
     unfold is_older_than, bindM. rewrite (targ_to_dt_resolves w t d Hres).
     unfold lift at 1. rewrite En. rewrite (override_returns_instant w now false Hov).
-    unfold lift, dt_sub. rewrite Hnaive, Tn, Wn. reflexivity.
+    unfold lift, dt_sub. rewrite Hnaive, Tn, Wn, Hs. reflexivity.
   Qed.
 
-  Theorem newer_iff : exists b, is_newer_than t s w = (Ok b, w) /\ (b = true <-> instant d - wall now > s).
+  Theorem newer_iff : exists b, is_newer_than t s w = (Ok b, w) /\ (b = true <-> instant d - wall now > su).
   Proof.
     destruct (normalize_result d Hnorm) as (n & En & Tn & Wn).
-    exists (instant d - wall now >? s). split; [|lia].
+    exists (instant d - wall now >? su). split; [|lia].
     unfold is_newer_than, bindM. rewrite (targ_to_dt_resolves w t d Hres).
     unfold lift at 1. rewrite En. rewrite (override_returns_instant w now false Hov).
-    unfold lift, dt_sub. rewrite Hnaive, Tn, Wn. reflexivity.
+    unfold lift, dt_sub. rewrite Hnaive, Tn, Wn, Hs. reflexivity.
   Qed.
 
   (* [now + window] must be representable *)
-  Theorem soon_iff : in_range (wall now + s) = true ->
-    exists b, is_soon t s w = (Ok b, w) /\ (b = true <-> instant d <= wall now + s).
+  Theorem soon_iff : in_range (wall now + su) = true ->
+    exists b, is_soon t s w = (Ok b, w) /\ (b = true <-> instant d <= wall now + su).
   Proof.
     intros Hr. destruct (normalize_result d Hnorm) as (n & En & Tn & Wn).
-    exists (instant d <=? wall now + s). split; [|lia].
+    exists (instant d <=? wall now + su). split; [|lia].
     unfold is_soon, bindM. rewrite (targ_to_dt_resolves w t d Hres).
     rewrite (override_returns_instant w now false Hov).
-    unfold lift at 1. unfold dt_add_td, td_of_seconds. rewrite Hr.
+    unfold lift at 1. rewrite Hs.
+    unfold lift at 1. unfold dt_add_td. rewrite Hr.
     unfold lift at 1. rewrite En.
     unfold lift, dt_le, dt_cmp. cbn [tz wall]. rewrite Hnaive, Tn, Wn. reflexivity.
   Qed.
 End Compare.
+
+(* an aware override: the clock value is returned as is, and the comparisons raise TypeError (naive - aware) *)
+Theorem older_aware_override_raises w now z t d s :
+  ov w = One now -> tz now = Some z -> resolves w t d -> normalizable d = true ->
+  is_older_than t s w = (Exn TypeError, w) /\ is_newer_than t s w = (Exn TypeError, w).
+Proof.
+  intros Hov Hz Hres Hnorm. destruct (normalize_result d Hnorm) as (n & En & Tn & Wn).
+  split; unfold is_older_than, is_newer_than, bindM; rewrite (targ_to_dt_resolves w t d Hres);
+    unfold lift at 1; rewrite En; rewrite (override_returns_instant w now false Hov);
+    unfold lift, dt_sub; rewrite Hz, Tn; reflexivity.
+Qed.
 
 (* ------------------------------------------------------------------ marshalling *)
 
@@ -378,12 +439,18 @@ Definition ex_d : dt := mkDt 63713433600000000 (Some (mkTz 3600000000 (Some (lit
 Definition ex_w : world := mkW (One ex_now) 5 (fun _ => Ok ex_d) (fun _ => Ok (mkZone (fun _ => 0) (Some utc_name))).
 Definition ex_s : str := lit "2020-01-01T00:00:00+01:00".
 
-(* ex_d is one hour before the clock: older than 3599.999999 s, not older than 3600 s *)
-Example older_ex : is_older_than (TStr ex_s) 3599999999 ex_w = (Ok true, ex_w) /\ is_older_than (TDt ex_d) 3600000000 ex_w = (Ok false, ex_w).
-Proof. split; reflexivity. Qed.
-Example newer_ex : is_newer_than (TStr ex_s) (-3600000001) ex_w = (Ok true, ex_w) /\ is_newer_than (TDt ex_d) (-3600000000) ex_w = (Ok false, ex_w).
-Proof. split; reflexivity. Qed.
-Example soon_ex : is_soon (TStr ex_s) (-3600000000) ex_w = (Ok true, ex_w) /\ is_soon (TDt ex_d) (-3600000001) ex_w = (Ok false, ex_w).
+(* ex_d is one hour before the clock: older than the float 3599.999999 s, not older than the int 3600 s *)
+Definition ex_f : float64 := f_normalize 7916483717788177 (-41).          (* 3599.999999 *)
+Definition ex_fneg : float64 := f_normalize (-7916483717788177) (-41).
+Example td_float_ex : td_of_seconds (PFloat ex_f) = Ok 3599999999 /\ td_of_seconds (PInt 3600) = Ok 3600000000 /\
+                      td_of_seconds (PFloat (f_normalize 4508103226997866 (-52))) = Ok 1001000 /\   (* 1.001: 1.001*1e6 < 1001000 in binary64 *)
+                      td_of_seconds (PFloat (f_normalize 4593239274353678 (-64))) = Ok 249.          (* 0.000249 *)
+Proof. repeat split; vm_compute; reflexivity. Qed.
+Example older_ex : is_older_than (TStr ex_s) (PFloat ex_f) ex_w = (Ok true, ex_w) /\ is_older_than (TDt ex_d) (PInt 3600) ex_w = (Ok false, ex_w).
+Proof. split; vm_compute; reflexivity. Qed.
+Example newer_ex : is_newer_than (TStr ex_s) (PInt (-3601)) ex_w = (Ok true, ex_w) /\ is_newer_than (TDt ex_d) (PInt (-3600)) ex_w = (Ok false, ex_w).
+Proof. split; vm_compute; reflexivity. Qed.
+Example soon_ex : is_soon (TStr ex_s) (PInt (-3600)) ex_w = (Ok true, ex_w) /\ is_soon (TDt ex_d) (PFloat (f_normalize (-7916483722186223) (-41))) ex_w = (Ok false, ex_w).
 Proof. split; vm_compute; reflexivity. Qed.
 Example compare_hyps_ex : ov ex_w = One ex_now /\ tz ex_now = None /\ resolves ex_w (TStr ex_s) ex_d /\ resolves ex_w (TDt ex_d) ex_d /\
                           normalizable ex_d = true /\ in_range (wall ex_now + (-3600000000)) = true.
@@ -391,9 +458,9 @@ Proof. repeat split. Qed.
 Example normalize_ex : normalize_time ex_d = Ok (naive 63713430000000000) /\ normalize_time ex_now = Ok ex_now.
 Proof. split; reflexivity. Qed.
 Example advance_ex :
-  prefixes_ok (wall ex_now) [ByDelta 1; BySeconds (-2000000); ByDelta 86400000000] = true /\
-  bindM (run_advs [ByDelta 1; BySeconds (-2000000); ByDelta 86400000000]) (fun _ => utcnow false) ex_w
-  = (Ok (naive 63713519998000001), set_ov ex_w (One (naive 63713519998000001))).
+  prefixes_ok (wall ex_now) [ByDelta 1; BySeconds (PInt (-2)); FxByDelta 86400000000; FxBySeconds (PFloat (f_normalize 4508103226997866 (-52)))] = true /\
+  bindM (run_advs [ByDelta 1; BySeconds (PInt (-2)); FxByDelta 86400000000; FxBySeconds (PFloat (f_normalize 4508103226997866 (-52)))]) (fun _ => utcnow false) ex_w
+  = (Ok (naive 63713519999001001), set_ov ex_w (One (naive 63713519999001001))).
 Proof. split; vm_compute; reflexivity. Qed.
 Example ts_ex : utcnow_ts false ex_w = (Ok (FInt 1577836800), ex_w) /\ in_range (wall ex_now) = true.
 Proof. split; vm_compute; reflexivity. Qed.
